@@ -4,12 +4,16 @@ package main
 
 import (
 	"bytes"
+	"fmt"
 	"golang.org/x/crypto/argon2"
 	"verifharness/hx"
 )
 
 func exec(line string) string {
 	o := hx.Parse(line)
+	if o.Cmd == "consts" {
+		return fmt.Sprintf("%d mut=-", argon2.Version)
+	}
 	if o.Cmd != "a2" {
 		return "bad-op"
 	}
@@ -74,17 +78,110 @@ func blen(r *hx.Rand) int {
 	return r.PickInt(0, 0, 1, 8, 16, 16, 32, 100, r.Intn(260))
 }
 
+// note records the features and switch arms one parameter set exercises
+func note(cv *cover, mode, path string, t, m, p, l, pwLen, saltLen int, extra bool) {
+	if t < 1 || p < 1 {
+		return
+	}
+	var feats []string
+	feats = append(feats, "mode-"+mode)
+	cv.hit("mode-path", mode+"/"+path)
+	if path == "nosse4" {
+		feats = append(feats, "nosse4")
+	}
+	switch {
+	case l == 0:
+	case l < 64:
+		cv.hit("hprime-arm", "T<64")
+	case l == 64:
+		cv.hit("hprime-arm", "T=64")
+	case l <= 96:
+		cv.hit("hprime-arm", "no-loop")
+		feats = append(feats, "long-key")
+	case l%64 == 0:
+		cv.hit("hprime-arm", "loop,T%64=0")
+		feats = append(feats, "long-key")
+	default:
+		cv.hit("hprime-arm", "loop,T%64>0")
+		feats = append(feats, "long-key")
+	}
+	mem := m / (4 * p) * (4 * p)
+	switch {
+	case m < 8*p:
+		cv.hit("memory-arm", "below-8p")
+		feats = append(feats, "below-min")
+		mem = 8 * p
+	case m%(4*p) == 0:
+		cv.hit("memory-arm", "multiple")
+	default:
+		cv.hit("memory-arm", "rounded-down")
+		feats = append(feats, "non-multiple")
+	}
+	if mem/p/4 > 130 {
+		cv.hit("addr-block", "several-per-segment")
+		feats = append(feats, "seg>128")
+	} else {
+		cv.hit("addr-block", "one-per-segment")
+	}
+	if p > 1 {
+		feats = append(feats, "multi-lane")
+	}
+	if p >= 63 {
+		feats = append(feats, "high-p")
+	}
+	if t > 1 {
+		feats = append(feats, "multi-pass")
+	}
+	if pwLen == 0 {
+		feats = append(feats, "empty-pw")
+	}
+	if saltLen == 0 {
+		feats = append(feats, "empty-salt")
+	}
+	if extra {
+		feats = append(feats, "secret-ad")
+	}
+	cv.pairs(feats...)
+}
+
 func gen(g *hx.Gen) {
 	r := g.R
+	cv := newCover(g)
+	cv.declare("mode-path", 6)
+	cv.declare("hprime-arm", 5)
+	cv.declare("memory-arm", 3)
+	cv.declare("addr-block", 2)
+	defer cv.report()
+	g.Emit("consts")
 	// threads is a uint8 in the API and must be widened before any arithmetic: parallelism degrees around every
 	// multiple of 64 (4*threads wraps in uint8 there) and the extremes, in every run, for Key and IDKey.
 	// memory 8 → the floor rule gives 8*threads blocks; 11*threads → rounds down to 8*threads; 12*threads+5 → 12*threads
-	for _, p := range []int{63, 64, 65, 127, 128, 129, 191, 192, 193, 254, 255} {
+	for pi, p := range []int{63, 64, 65, 127, 128, 129, 191, 192, 193, 254, 255} {
 		for k, mode := range []string{"i", "id"} {
 			m := []int{8, 11 * p, 8*p + 1, 12*p + 5}[(p+k)%4]
 			g.Stat("p.high")
-			g.Emit("a2 mode=%s api=pub path=%s pw=%s salt=%s secret=- ad=- t=1 m=%d p=%d len=32", mode,
-				r.PickStr("sse4", "nosse4"), hx.Hex(r.Bytes(8)), hx.Hex(r.Bytes(16)), m, p)
+			path := r.PickStr("sse4", "nosse4")
+			// vary the other features across the block so that high parallelism meets each of them
+			t, l, pwLen, saltLen, api, secret, ad := 1, 32, 8, 16, "pub", "-", "-"
+			switch (2*pi + k) % 11 {
+			case 1:
+				t = 2
+			case 2:
+				l = 65
+			case 3:
+				l = 192
+			case 4:
+				pwLen = 0
+			case 5:
+				saltLen = 0
+			case 6:
+				api, secret, ad = "hook", hx.Hex(r.Bytes(8)), hx.Hex(r.Bytes(12))
+			case 7:
+				api, mode = "hook", "d"
+			}
+			note(cv, mode, path, t, m, p, l, pwLen, saltLen, secret != "-")
+			g.Emit("a2 mode=%s api=%s path=%s pw=%s salt=%s secret=%s ad=%s t=%d m=%d p=%d len=%d", mode, api,
+				path, hx.Hex(r.Bytes(pwLen)), hx.Hex(r.Bytes(saltLen)), secret, ad, t, m, p, l)
 		}
 	}
 	n := g.Count(580, 6000)
@@ -156,8 +253,10 @@ func gen(g *hx.Gen) {
 		path := r.PickStr("sse4", "nosse4")
 		g.Stat("mode." + mode)
 		g.Stat("path." + path)
+		pwLen, saltLen := blen(r), blen(r)
+		note(cv, mode, path, t, m, p, l, pwLen, saltLen, secret != "-" || ad != "-")
 		g.Emit("a2 mode=%s api=%s path=%s pw=%s salt=%s secret=%s ad=%s t=%d m=%d p=%d len=%d", mode, api, path,
-			hx.Hex(r.Bytes(blen(r))), hx.Hex(r.Bytes(blen(r))), secret, ad, t, m, p, l)
+			hx.Hex(r.Bytes(pwLen)), hx.Hex(r.Bytes(saltLen)), secret, ad, t, m, p, l)
 	}
 }
 
